@@ -38,8 +38,9 @@ RULE = ("Hypothesis draws integer arrays from a per-case value pool (zero share 
         "AND >=1 negative AND >=1 zero entry; distinct = SHA-1 of the canonical case JSON.")
 ASSUMPTIONS = [
     "puan_rspy 0.3.0 (py_optimized_bit_allocation_64) is part of the system under test",
-    "3-D input is only checked as a batch over axis 0 and only for 'shadow' (the caller's form); other axes of 3-D "
-    "input are undocumented",
+    "3-D input is only checked as a stack over axis 0 (the caller's form): relations of the statement for 'shadow'; for "
+    "'first'/'last'/'prio'/'rank' the result must equal the per-matrix 2-D results in member order (for first/last the "
+    "literal reading - compress across the members - is accepted as well); other axes of 3-D input are undocumented",
     "1-D input with axis=0 is only checked for 'shadow', 'min' and 'max'; for 'first'/'last'/'prio'/'rank' the "
     "1-D/axis=0 behaviour is undocumented (identity resp. ranking of raw signed values) and left out",
     "axis=None is checked where the docstring shows it (min, rank, shadow) and for 'prio' via the documented "
@@ -260,9 +261,31 @@ def check_shadow(case, ev):
     ev.case(case, nontrivial, [f"shape={nd}d/axis={axis}" + ("/cfg" if case.get("cfg") else "")] + cls)
 
 
+def check_batch(case, ev, methods):
+    """3-D input: every 3-D branch of ndint_compress maps the 2-D method over the members of axis 0 (the form the
+    configurator uses for 'shadow'); 'along axis 0' read literally would instead compress across the members. Either
+    reading is accepted - anything else (members mixed up, reordered, another axis) is not what the statement allows."""
+    pnd, np = _mods()
+    a = case["a"]
+    for m in methods:
+        R = np.asarray(call(pnd.integer_ndarray(a).ndint_compress, method=m, axis=0, what=f"ndint_compress({m}) on a stack")).tolist()
+        per_member = [np.asarray(call(pnd.integer_ndarray(x).ndint_compress, method=m, axis=0, what=f"ndint_compress({m})")).tolist() for x in a]
+        ok = [per_member]
+        if m in ("first", "last"):
+            fn = _first if m == "first" else (lambda l: _first(l[::-1]))
+            ok.append([[fn([a[g][r][c] for g in range(len(a))]) for c in range(len(a[0][0]))] for r in range(len(a[0]))])
+        if R not in ok:
+            raise Violation(f"{m} on a stack of {len(a)} matrices (axis=0): got {R}, the per-matrix results are {per_member}; input {a}")
+    flat = _flatten(a)
+    differ = len(a) >= 2 and any(a[0] != x for x in a[1:])
+    ev.case(case, differ and any(x < 0 for x in flat) and any(x == 0 for x in flat), ["shape=3d/axis=0", f"members={len(a)}"] + (["members_differ"] if differ else []))
+
+
 def check_prio_rank(case, ev):
     pnd, np = _mods()
     a, axis = case["a"], case["axis"]
+    if case.get("batch"):
+        return check_batch(case, ev, ("prio", "rank"))
     nd = _ndim(a)
     views = views_of(a, axis)
     ks = keys_of(views[0])
@@ -302,6 +325,8 @@ def _min_nz(line):
 def check_select(case, ev):
     pnd, np = _mods()
     a, axis = case["a"], case["axis"]
+    if case.get("batch"):
+        return check_batch(case, ev, ("first", "last"))
     nd = _ndim(a)
     if nd == 2 and axis in (0, 1):
         lines = _transpose(a) if axis == 0 else [list(r) for r in a]
@@ -478,10 +503,20 @@ def shadow_case(draw):
 
 
 @st.composite
+def _batch_case(draw):
+    """a stack of 1-3 matrices of one shape, axis 0 (the form _vectors_from_prios uses for 'shadow')"""
+    nr, nc = draw(st.integers(1, 4)), draw(st.integers(1, 5))
+    pool = draw(_pool())
+    return {"a": [draw(_matrix(nr, nc, pool)) for _ in range(draw(st.integers(1, 3)))], "axis": 0, "batch": True}
+
+
+@st.composite
 def prio_rank_case(draw):
-    kind = draw(st.sampled_from(["1d/None", "2d/0", "2d/0", "2d/1", "2d/1", "2d/None"]))
+    kind = draw(st.sampled_from(["1d/None", "2d/0", "2d/0", "2d/1", "2d/1", "2d/None", "3d/0"]))
     if kind == "1d/None":
         return {"a": draw(_vector()), "axis": None}
+    if kind == "3d/0":
+        return draw(_batch_case())
     nr, nc = _dims(draw)
     if kind == "2d/1":
         nr, nc = nc, nr
@@ -490,9 +525,11 @@ def prio_rank_case(draw):
 
 @st.composite
 def select_case(draw):
-    kind = draw(st.sampled_from(["2d/0", "2d/0", "2d/0", "2d/1", "2d/1", "2d/1", "1d/0", "2d/None"]))
+    kind = draw(st.sampled_from(["2d/0", "2d/0", "2d/0", "2d/1", "2d/1", "2d/1", "1d/0", "2d/None", "3d/0", "3d/0"]))
     if kind == "1d/0":
         return {"a": draw(_vector()), "axis": 0}
+    if kind == "3d/0":
+        return draw(_batch_case())
     nr, nc = _dims(draw)
     if kind == "2d/1":
         nr, nc = nc, nr
